@@ -37,6 +37,7 @@ impl DelayNs for NullDelay {
 }
 
 /// Control lines that never fail and never block (C13: only the SPI bytes matter).
+#[allow(dead_code)]
 pub struct NullIv;
 impl InterfaceVariant for NullIv {
     async fn reset(&mut self, _delay: &mut impl DelayNs) -> Result<(), RadioError> {
@@ -65,4 +66,39 @@ pub fn prior_byte(seed: u64, idx: u64) -> u8 {
     z = (z ^ (z >> 30)).wrapping_mul(0xBF58476D1CE4E5B9);
     z = (z ^ (z >> 27)).wrapping_mul(0x94D049BB133111EB);
     (z ^ (z >> 31)) as u8
+}
+
+/// Control lines for the C13 history stage: like `NullIv`, but pulsing NRESET performs the chip
+/// reset on the SPI double the driver talks to (the closure puts that double's register file /
+/// chip state back to its reset defaults) and counts the pulses.
+pub struct ResetIv {
+    pub on_reset: Box<dyn FnMut()>,
+    pub resets: std::rc::Rc<core::cell::Cell<u32>>,
+}
+impl ResetIv {
+    pub fn new(on_reset: impl FnMut() + 'static) -> Self {
+        ResetIv { on_reset: Box::new(on_reset), resets: std::rc::Rc::new(core::cell::Cell::new(0)) }
+    }
+}
+impl InterfaceVariant for ResetIv {
+    async fn reset(&mut self, _delay: &mut impl DelayNs) -> Result<(), RadioError> {
+        (self.on_reset)();
+        self.resets.set(self.resets.get() + 1);
+        Ok(())
+    }
+    async fn wait_on_busy(&mut self) -> Result<(), RadioError> {
+        Ok(())
+    }
+    async fn await_irq(&mut self) -> Result<(), RadioError> {
+        Ok(())
+    }
+    async fn enable_rf_switch_rx(&mut self) -> Result<(), RadioError> {
+        Ok(())
+    }
+    async fn enable_rf_switch_tx(&mut self) -> Result<(), RadioError> {
+        Ok(())
+    }
+    async fn disable_rf_switch(&mut self) -> Result<(), RadioError> {
+        Ok(())
+    }
 }
